@@ -266,10 +266,10 @@ pub fn families() -> Vec<Box<dyn Family>> {
             |idx, cfg, out| {
                 let mut rng = Rng::for_case(cfg.seed, "c04.distinct_boundary", idx);
                 let bound = if cfg.tiny { 8 } else { text_gen::BOUNDARIES[(idx % 8) as usize] };
+                // both sides have n < bound lines; together they have n + fresh > bound distinct lines
                 let n = bound - 1 - rng.below(bound.min(400) / 4 + 1);
-                let fresh = rng.range(bound - n + 1, (bound - n + 1) + bound.min(900));
-                let drop = rng.below(200.min(n));
-                let (a, b) = text_gen::distinct_lines_pair(&mut rng, n, drop, fresh);
+                let fresh = (rng.range(bound - n + 1, (bound - n + 1) + bound.min(900))).min(n);
+                let (a, b) = text_gen::distinct_lines_pair(&mut rng, n, fresh, fresh);
                 out.sample(|| format!("{} distinct old lines, {} fresh new lines (boundary {})", n, fresh, bound));
                 out.nontrivial(&(&a, &b));
                 long_case(&a, &b, out);
